@@ -139,6 +139,31 @@ func lastFunc(p *parse.PipeNode) string {
 	return "-"
 }
 
+// templateNames lists the {{define}}s of /repo/generator/*.gotmpl
+func templateNames() []string {
+	files, _ := filepath.Glob("/repo/generator/*.gotmpl")
+	var out []string
+	for _, f := range files {
+		src, err := os.ReadFile(f)
+		if err != nil {
+			continue
+		}
+		tr := parse.New(filepath.Base(f))
+		tr.Mode = parse.SkipFuncCheck
+		trees := map[string]*parse.Tree{}
+		if _, err := tr.Parse(string(src), "", "", trees); err != nil {
+			continue
+		}
+		for n := range trees {
+			if n != filepath.Base(f) {
+				out = append(out, n)
+			}
+		}
+	}
+	sort.Strings(out)
+	return out
+}
+
 func runHoles(c runCfg) error {
 	dir := "/repo/generator"
 	files, err := filepath.Glob(filepath.Join(dir, "*.gotmpl"))
